@@ -3,6 +3,8 @@ import CifModel.Lemmas.ParserTraceInv
 import CifModel.Model.ParserStoreOps
 import CifModel.Props.C03
 import CifModel.Props.C04
+import CifModel.Lemmas.ParserStoreRun
+import CifModel.Lemmas.ParserStoreRunF
 /-
   Props/C03Store — the parser model and the store: which API calls a parse makes, and that the CIF the parser model returns is what
   those calls build (property C03 "the CIF is consistent afterwards" / C04 "interleaved with parsing").
@@ -23,12 +25,10 @@ import CifModel.Props.C04
       `C03_add_packet_calls_documented`, `C03_create_calls_documented`: every add_packet / block / frame creation of every parse is
       a SUCCESSFUL call of the documented function in the state in which it is made (`Lemmas/ParserTraceInv.trace_calls_docOk`);
     * `C03_store_step_mkBlock`: for block creation the composition with the store model's API function (through C04_refines_create_block).
-  NOT proved: `C03_parser_store_refines_full` — running the translated history (`storeOps`) through `Store.step` from a new CIF ends
-  with every call CIF_OK in a store whose abstraction `Store.abs` is the parser model's CIF.  It is EXECUTED by the model driver on
-  every request of family `parse` with a fresh target (field `sto=`; any outcome other than `ok` is a disagreement), and three
-  instances are evaluated by the kernel below.  What a proof needs: for set_value / create_loop / add_packet / prune the lift of
-  the container-local refinement lemmas of Props/C04 (`absLoops d cid`) to the tree `Store.abs` at a PATH (unique parents of save
-  frames), the API wrappers' transaction brackets, and the handle tables of `Store.step`.
+  PROVED since group gX: `C03_parser_store_refines : C03_parser_store_refines_full` — running the translated history (`storeOps`)
+  through `Store.step` from a new CIF ends with every call CIF_OK in a store whose abstraction `Store.abs` is the parser model's CIF
+  (below: "the FULL composition").  It is also EXECUTED by the model driver on every request of family `parse` with a target (field
+  `sto=`; any outcome other than `ok` / `skip` is a disagreement).
 -/
 namespace CifModel
 open CifModel.Model CifModel.Model.Lexer CifModel.Model.Parser
@@ -98,10 +98,9 @@ theorem C03_create_calls_documented (o : Opts) (pol : Policy) (pre : Cif) (units
   intro before
   refine ⟨?_, ?_⟩
   · intro code lenient hk
-    exact mkBlock_spec o before code lenient (trace_calls_docOk o pol pre units ⟨h, hr⟩ k _ hk)
+    exact mkBlock_spec o before code lenient (trace_calls_docOk o pol pre units ⟨h, hr⟩ k _ hk).2
   · intro parent code lenient hk cc hg
-    have hd := trace_calls_docOk o pol pre units ⟨h, hr⟩ k _ hk
-    simp only [SOp.docOk] at hd
+    have hd := (trace_calls_docOk o pol pre units ⟨h, hr⟩ k _ hk).2
     apply mkFrame_spec o cc code
     have e : getIn o.norm parent (((storeTrace o pol pre units).take k).foldl (fun c op => op.apply o c) pre) = some cc := hg
     rw [e] at hd
@@ -135,8 +134,8 @@ theorem C03_add_packet_calls_documented (o : Opts) (pol : Policy) (pre : Cif) (u
   rw [hs] at this
   cases this
 
-/-- **FULL statement (not proved; executed on every generated input, see the head of the file)**: the calls of a parse into a
-    new CIF, run through the store model, all succeed and build exactly the CIF the parser model returns. -/
+/-- **FULL statement** (proved below: `C03_parser_store_refines`; also executed on every generated input): the calls of a parse into
+    a new CIF, run through the store model, all succeed and build exactly the CIF the parser model returns. -/
 def C03_parser_store_refines_full : Prop :=
   ∀ (o : Opts) (pol : Policy) (units : Str) (ops : List Store.Op),
     storeOps o (storeTrace o pol [] units) = some ops →
@@ -177,6 +176,279 @@ theorem C03_parser_store_refines_partial (o : Opts) (pol : Policy) (pre : Cif) (
         Store.abs (Store.createBlock s (some (mkName o false code))).1.db = (SOp.mkBlock code false).apply o cif) :=
   ⟨⟨parseT_out o pol pre units, parse_replay o pol pre units⟩, fun name v c hok hr => setValueC_spec o name v c hok hr,
    fun s cif code h1 h2 h3 h4 h5 h6 => C03_store_step_mkBlock o s cif code h1 h2 h3 h4 h5 h6⟩
+
+/-! ### the container a recorded call addresses EXISTS (group gX; review rA, finding A.1)
+
+  The conclusions of `C03_add_packet_calls_documented`, `C03_create_calls_documented` (frame arm) and — through `updIn` —
+  `C03_set_value_calls_documented` are guarded by `getIn … path before = some cc`.  `C03_calls_resolve` says that the guard is always met
+  (Lemmas/ParserTraceShape: a second Hoare logic over the instrumented productions, with the recorded calls visible to pre- and
+  postconditions); the theorems below restate the conclusions without the guard, and add the two calls that had no documented
+  function before (cif_container_create_loop, cif_container_prune: Spec/DataModel `Container.specCreateLoop`, `Container.specPrune`). -/
+
+/-- **C03_calls_resolve** — every recorded call of every parse (any option record, policy, input, initial target; completed or aborted)
+    addresses a container that exists in the state in which the call is made: the replay of the calls before it resolves the call's
+    path (for a save-frame creation: the path of the parent). -/
+theorem C03_calls_resolve (o : Opts) (pol : Policy) (pre : Cif) (units : Str) (k : Nat) (op : SOp)
+    (hk : (storeTrace o pol pre units)[k]? = some op) :
+    let before := ((storeTrace o pol pre units).take k).foldl (fun c op => op.apply o c) pre
+    match op with
+    | .mkBlock .. => True
+    | .mkFrame parent _ _ => (getIn o.norm parent before).isSome = true
+    | .setVal path _ _ | .mkLoop path _ | .addPkt path _ | .prune path => (getIn o.norm path before).isSome = true := by
+  intro before
+  have h := trace_paths_resolve o pol pre units k op hk
+  cases op <;> first | trivial | exact h
+
+/-- **C03_add_packet_calls_succeed** — `C03_add_packet_calls_documented` without its guard: the container exists, its LAST loop accepts
+    the packet `names ↦ values` (documented function: `.ok`), and that is what the parser model's step does. -/
+theorem C03_add_packet_calls_succeed (o : Opts) (pol : Policy) (pre : Cif) (units : Str) (h : OkCif o pre) (hr : RectCif pre)
+    (k : Nat) (path : Path) (vals : List V) (hk : (storeTrace o pol pre units)[k]? = some (SOp.addPkt path vals)) :
+    let before := ((storeTrace o pol pre units).take k).foldl (fun c op => op.apply o c) pre
+    ∃ cc, getIn o.norm path before = some cc ∧
+      ∃ ls0 l, cc.loops = ls0 ++ [l] ∧
+        Loop.specAddPacket o.norm l ((l.names.map o.norm).zip vals) = .ok { l with packets := l.packets ++ [vals] } ∧
+        addPacketLast cc.loops vals = ls0 ++ [{ l with packets := l.packets ++ [vals] }] := by
+  intro before
+  have hres : (getIn o.norm path before).isSome = true := trace_paths_resolve o pol pre units k _ hk
+  obtain ⟨cc, hcc⟩ := Option.isSome_iff_exists.mp hres
+  exact ⟨cc, hcc, C03_add_packet_calls_documented o pol pre units h hr k path vals hk cc hcc⟩
+
+/-- **C03_create_frame_calls_succeed** — the frame arm of `C03_create_calls_documented` without its guard: the parent exists and the
+    documented creation succeeds on it (the code is valid or the creation is the lenient one: `SOp.docOk`). -/
+theorem C03_create_frame_calls_succeed (o : Opts) (pol : Policy) (pre : Cif) (units : Str) (h : OkCif o pre) (hr : RectCif pre)
+    (k : Nat) (parent : Path) (code : Str) (lenient : Bool)
+    (hk : (storeTrace o pol pre units)[k]? = some (SOp.mkFrame parent code lenient)) :
+    let before := ((storeTrace o pol pre units).take k).foldl (fun c op => op.apply o c) pre
+    (lenient = true ∨ isValidName false code = true) ∧
+    ∃ cc, getIn o.norm parent before = some cc ∧
+      cc.specCreateFrame o.norm (o.norm code) code true = .ok (Container.mk cc.code (cc.frames ++ [Container.mk code [] []]) cc.loops) := by
+  intro before
+  have hres : (getIn o.norm parent before).isSome = true := trace_paths_resolve o pol pre units k _ hk
+  obtain ⟨cc, hcc⟩ := Option.isSome_iff_exists.mp hres
+  exact ⟨(trace_calls_docOk o pol pre units ⟨h, hr⟩ k _ hk).1, cc, hcc,
+    (C03_create_calls_documented o pol pre units h hr k).2 parent code lenient hk cc hcc⟩
+
+/-- **C03_set_value_calls_succeed** — the container of every recorded cif_container_set_value exists, and the call does to it what the
+    documented function does (`C03_set_value_calls_documented`: `updIn` at a path that resolves is not the identity by default). -/
+theorem C03_set_value_calls_succeed (o : Opts) (pol : Policy) (pre : Cif) (units : Str) (h : OkCif o pre) (hr : RectCif pre)
+    (k : Nat) (path : Path) (n : Str) (v : V) (hk : (storeTrace o pol pre units)[k]? = some (SOp.setVal path n v)) :
+    let before := ((storeTrace o pol pre units).take k).foldl (fun c op => op.apply o c) pre
+    (∃ cc, getIn o.norm path before = some cc ∧
+      getIn o.norm path (((storeTrace o pol pre units).take (k + 1)).foldl (fun c op => op.apply o c) pre)
+        = some (cc.specSetValue o.norm (o.norm n) n v)) := by
+  intro before
+  have hres : (getIn o.norm path before).isSome = true := trace_paths_resolve o pol pre units k _ hk
+  obtain ⟨cc, hcc⟩ := Option.isSome_iff_exists.mp hres
+  refine ⟨cc, hcc, ?_⟩
+  rw [C03_set_value_calls_documented o pol pre units h hr k path n v hk]
+  rw [getIn_updIn o _ (fun c => by cases c; simp only [Container.specSetValue]; split <;> (try split) <;> rfl) path]
+  show (getIn o.norm path before).map _ = _
+  rw [hcc]; rfl
+
+/-- **C03_create_loop_calls_succeed** — every recorded cif_container_create_loop: the container exists and the DOCUMENTED function
+    (`Container.specCreateLoop`, category NULL; group gX) succeeds on it — names not empty, all valid, none in use, pairwise distinct
+    (`SOp.docOk`) — with the result the parser model's step produces. -/
+theorem C03_create_loop_calls_succeed (o : Opts) (pol : Policy) (pre : Cif) (units : Str) (h : OkCif o pre) (hr : RectCif pre)
+    (k : Nat) (path : Path) (names : List Str) (hk : (storeTrace o pol pre units)[k]? = some (SOp.mkLoop path names)) :
+    let before := ((storeTrace o pol pre units).take k).foldl (fun c op => op.apply o c) pre
+    ∃ cc, getIn o.norm path before = some cc ∧
+      cc.specCreateLoop o.norm none names (isValidName true)
+        = .ok (Container.mk cc.code cc.frames (cc.loops ++ [{ category := none, names := names, packets := [] }])) := by
+  intro before
+  have hres : (getIn o.norm path before).isSome = true := trace_paths_resolve o pol pre units k _ hk
+  obtain ⟨cc, hcc⟩ := Option.isSome_iff_exists.mp hres
+  obtain ⟨hne, hv, hcl⟩ := trace_calls_docOk o pol pre units ⟨h, hr⟩ k _ hk
+  exact ⟨cc, hcc, mkLoop_spec o cc names hne hv (hcl cc hcc)⟩
+
+/-- **C03_prune_calls_documented** — every recorded cif_container_prune addresses an existing container and is the documented function
+    (`Container.specPrune`) applied to it. -/
+theorem C03_prune_calls_documented (o : Opts) (pol : Policy) (pre : Cif) (units : Str)
+    (k : Nat) (path : Path) (hk : (storeTrace o pol pre units)[k]? = some (SOp.prune path)) :
+    let before := ((storeTrace o pol pre units).take k).foldl (fun c op => op.apply o c) pre
+    (getIn o.norm path before).isSome = true ∧
+      (SOp.prune path).apply o before = updIn o.norm Container.specPrune path before := by
+  intro before
+  refine ⟨trace_paths_resolve o pol pre units k _ hk, ?_⟩
+  show updIn o.norm pruneC path before = _
+  have : pruneC = Container.specPrune := funext prune_spec'
+  rw [this]
+
+/-! ### the composition over whole histories (group gX)
+
+  `ParserSim.noFrames trace`: the trace contains no save-frame creation.  For such traces — every option record, every policy, every
+  input, completed or aborted parses, lenient creations included — the FULL statement holds, and more: the history is in contract, so
+  every theorem of C04 / C05 / C06 / C07 about in-contract histories applies to what the parser built.  (That every
+  cif_loop_add_packet directly follows the cif_container_create_loop / cif_loop_add_packet of the same container — so that the loop
+  handle of `storeOps` denotes the last loop of the container — is `Model.Parser.trace_shaped`, proved of every trace.) -/
+
+/-- **C03_parser_store_refines_covered_partial** — `C03_parser_store_refines_full` for the covered traces: the recorded calls of the
+    parse, translated into a `Store.Op` history and run through `Store.step` from the empty world, all return CIF_OK, and the store
+    then shows (`Store.abs`) EXACTLY the CIF the parser model returns.  (Lemmas/ParserStoreSim: each call on the documented model with
+    identities vs. the tree; Lemmas/ParserStoreRun: handle tables, `C04_refines` per step.) -/
+theorem C03_parser_store_refines_covered_partial (o : Opts) (pol : Policy) (units : Str) (ops : List Store.Op)
+    (hnf : ParserSim.noFrames (storeTrace o pol [] units) = true)
+    (hso : storeOps o (storeTrace o pol [] units) = some ops) :
+    (storeRun ops).2 = true ∧ ∃ s, (storeRun ops).1 = some s ∧ Store.abs s.db = (parse o pol [] units).cif := by
+  obtain ⟨_, hall, _, s, hc, _, habs⟩ := ParserSim.parse_store_sim o pol units ops hnf hso
+  refine ⟨hall, s, ?_, habs⟩
+  show (Store.run {} ops).1.cifs.getD 0 none = some s
+  rw [hc]; rfl
+
+/-- **C03_parser_store_refines_noframes_partial** — the same without the hypothesis that the trace has a translation: for a parse that
+    creates no save frame `storeOps` SUCCEEDS (every call finds the handle its container got: `C03_calls_resolve`), every translated
+    call returns CIF_OK, and the store then shows exactly the parser model's CIF. -/
+theorem C03_parser_store_refines_noframes_partial (o : Opts) (pol : Policy) (units : Str)
+    (hnf : ParserSim.noFrames (storeTrace o pol [] units) = true) :
+    ∃ ops, storeOps o (storeTrace o pol [] units) = some ops ∧ (storeRun ops).2 = true ∧
+      ∃ s, (storeRun ops).1 = some s ∧ Store.abs s.db = (parse o pol [] units).cif := by
+  obtain ⟨ops, hso⟩ := ParserSim.storeOps_total o pol units hnf
+  exact ⟨ops, hso, C03_parser_store_refines_covered_partial o pol units ops hnf hso⟩
+
+/-- **C03_parser_store_refines_from_rep_partial** — pre-existing targets: from ANY world `w` that represents a consistent, rectangular,
+    frame-free initial target (`ParserSim.Rep`: one CIF whose `Store.abs` is the target, `WOk`, no iterator, a live container handle
+    for every block — e.g. the world an earlier parse left: `ParserSim.parse_leaves_rep`), a parse of any input that creates no save
+    frame: its calls have a translation w.r.t. the handle tables of `w`, are in contract, return CIF_OK, keep `WOk`, and the world then
+    shows exactly the CIF the parser model returns for that initial target. -/
+theorem C03_parser_store_refines_from_rep_partial (o : Opts) (pol : Policy) (units : Str) (m : HMap) (w : Store.World) (s : Store.Store)
+    (last : Option SOp) (hr : ParserSim.Rep o m w s last) (hok : OkCif o (Store.abs s.db)) (hrect : RectCif (Store.abs s.db))
+    (hnf : ParserSim.noFrames (storeTrace o pol (Store.abs s.db) units) = true) :
+    ∃ sops, storeOpsFrom o m (storeTrace o pol (Store.abs s.db) units) = some sops ∧
+      Store.inContractHist w sops = true ∧ (Store.run w sops).2.all (fun r => r.rc == some 0) = true ∧
+      Store.WOk (Store.run w sops).1 ∧
+      ∃ s', (Store.run w sops).1.cifs = [some s'] ∧ Store.abs s'.db = (parse o pol (Store.abs s.db) units).cif := by
+  rw [← Store.absS_tree] at hok hrect hnf ⊢
+  exact ParserSim.parse_store_sim_from o pol units m w s last hr ⟨hok, hrect⟩ hnf
+
+/-- **C03_parse_is_store_history_partial** — the calls of a (covered) parse are an IN-CONTRACT history of the store API from the empty
+    world; hence the documented model with identities (`specRun`, Spec/StoreSpec) predicts every result and the final state
+    (`C04_refines_from_start` applies). -/
+theorem C03_parse_is_store_history_partial (o : Opts) (pol : Policy) (units : Str) (ops : List Store.Op)
+    (hnf : ParserSim.noFrames (storeTrace o pol [] units) = true)
+    (hso : storeOps o (storeTrace o pol [] units) = some ops) :
+    Store.inContractHist {} ops = true ∧
+      Store.specRun {} ops = some (Store.absW (Store.run {} ops).1, (Store.run {} ops).2) := by
+  obtain ⟨hin, _⟩ := ParserSim.parse_store_sim o pol units ops hnf hso
+  exact ⟨hin, C04_refines_from_start ops hin⟩
+
+/-- **C03_store_inv_after_parse_partial** — after every (covered) parse, also an aborted one, the world of the store model satisfies
+    `WOk` (store invariant `Good` / `Inv` of the CIF, autocommit, iterator table tied) — and the CIF it shows is consistent and
+    rectangular (`OkCif`, `RectCif`: `C03_consistent_after_fresh` about the store's own abstraction). -/
+theorem C03_store_inv_after_parse_partial (o : Opts) (pol : Policy) (units : Str) (ops : List Store.Op)
+    (hnf : ParserSim.noFrames (storeTrace o pol [] units) = true)
+    (hso : storeOps o (storeTrace o pol [] units) = some ops) :
+    Store.WOk (Store.run {} ops).1 ∧ ∃ s, (Store.run {} ops).1.cifs = [some s] ∧ Store.Inv s.db ∧ s.autocommit = true ∧
+      OkCif o (Store.abs s.db) ∧ RectCif (Store.abs s.db) := by
+  obtain ⟨_, _, hwok, s, hc, hits, habs⟩ := ParserSim.parse_store_sim o pol units ops hnf hso
+  have hl : (Store.run {} ops).1.liveC 0 = some s := by unfold Store.World.liveC; rw [hc]; rfl
+  refine ⟨hwok, s, hc, (hwok.good.live hl).db.inv, hwok.autocommit hl (ParserSim.busy_false _ hits 0), ?_⟩
+  rw [habs]
+  exact C03_consistent_after_fresh o pol units
+
+/-! ### the FULL composition: every parse, save frames included (group gX, Lemmas/ParserStoreSimF, ParserStoreRunF)
+
+  `ParserSimF` is the development above once more for states WITH save frames: `AState.tree` by recursion over the frame table,
+  `ContAt A path t` (a block, then frames, by normalised code), `tree_updG` — a change of the loops of the container with id `t`
+  is `updIn … path` on the tree, because `t` occurs ONCE in the tree (a frame has one parent, `parent < child`: `below_chain`,
+  `sibling_disjoint`, `root_disjoint`) —, `tree_addFrame`, `sim_mkFrame`, `rep_mkFrame`. -/
+
+/-- **C03_parser_store_refines** — `C03_parser_store_refines_full` PROVED: for EVERY option record, callback policy and input — save
+    frames at any depth, lenient creations, every recovery path, completed or aborted parses — the store calls the parse records,
+    translated into a `Store.Op` history (`storeOps`) and run through `Store.step` from the empty world, all return CIF_OK, and the
+    store then shows (`Store.abs`) EXACTLY the CIF the parser model returns. -/
+theorem C03_parser_store_refines : C03_parser_store_refines_full := by
+  intro o pol units ops hso
+  obtain ⟨_, hall, _, s, hc, _, habs⟩ := ParserSimF.parse_store_sim o pol units ops hso
+  refine ⟨hall, s, ?_, habs⟩
+  show (Store.run {} ops).1.cifs.getD 0 none = some s
+  rw [hc]; rfl
+
+/-- **C03_storeOps_total** — the trace of EVERY parse into a new CIF HAS a translation into a store history: every recorded call finds
+    the handle its container got (`C03_calls_resolve`; the state after every creation has the old containers and the new one, and a
+    container has one path).  So the hypothesis `storeOps … = some ops` of the theorems here is always met:
+    `C03_parser_store_refines_total`. -/
+theorem C03_storeOps_total (o : Opts) (pol : Policy) (units : Str) : ∃ ops, storeOps o (storeTrace o pol [] units) = some ops :=
+  ParserSimF.storeOps_total o pol units
+
+/-- **C03_parser_store_refines_total** — no hypothesis left: for every option record, policy and input there IS the translated history,
+    every call of it returns CIF_OK, and the store then shows exactly the parser model's CIF. -/
+theorem C03_parser_store_refines_total (o : Opts) (pol : Policy) (units : Str) :
+    ∃ ops, storeOps o (storeTrace o pol [] units) = some ops ∧ (storeRun ops).2 = true ∧
+      ∃ s, (storeRun ops).1 = some s ∧ Store.abs s.db = (parse o pol [] units).cif := by
+  obtain ⟨ops, hso⟩ := C03_storeOps_total o pol units
+  exact ⟨ops, hso, C03_parser_store_refines o pol units ops hso⟩
+
+/-- **C03_parse_is_store_history** — the calls of EVERY parse (into a new CIF) are an IN-CONTRACT history of the store API from the
+    empty world; hence the documented model with identities predicts every result and the final state (`C04_refines_from_start`), and
+    every theorem of C04 / C05 / C06 / C07 about in-contract histories applies to what the parser built. -/
+theorem C03_parse_is_store_history (o : Opts) (pol : Policy) (units : Str) (ops : List Store.Op)
+    (hso : storeOps o (storeTrace o pol [] units) = some ops) :
+    Store.inContractHist {} ops = true ∧
+      Store.specRun {} ops = some (Store.absW (Store.run {} ops).1, (Store.run {} ops).2) := by
+  obtain ⟨hin, _⟩ := ParserSimF.parse_store_sim o pol units ops hso
+  exact ⟨hin, C04_refines_from_start ops hin⟩
+
+/-- **C03_store_inv_after_parse** — after EVERY parse, also an aborted one, the world of the store model satisfies `WOk` (store
+    invariant `Inv` of the CIF, autocommit, iterator table tied), and the CIF it shows is consistent and rectangular. -/
+theorem C03_store_inv_after_parse (o : Opts) (pol : Policy) (units : Str) (ops : List Store.Op)
+    (hso : storeOps o (storeTrace o pol [] units) = some ops) :
+    Store.WOk (Store.run {} ops).1 ∧ ∃ s, (Store.run {} ops).1.cifs = [some s] ∧ Store.Inv s.db ∧ s.autocommit = true ∧
+      OkCif o (Store.abs s.db) ∧ RectCif (Store.abs s.db) := by
+  obtain ⟨_, _, hwok, s, hc, hits, habs⟩ := ParserSimF.parse_store_sim o pol units ops hso
+  have hl : (Store.run {} ops).1.liveC 0 = some s := by unfold Store.World.liveC; rw [hc]; rfl
+  refine ⟨hwok, s, hc, (hwok.good.live hl).db.inv, hwok.autocommit hl (ParserSimF.busy_false _ hits 0), ?_⟩
+  rw [habs]
+  exact C03_consistent_after_fresh o pol units
+
+/-- **C03_parser_store_refines_from_rep** — pre-existing targets, save frames included: from ANY world that represents a consistent,
+    rectangular initial target (`ParserSimF.Rep`), a parse whose trace has a translation w.r.t. the world's handle tables: the calls are
+    in contract, return CIF_OK, keep `WOk`, and the world then shows the CIF the parser model returns for that initial target. -/
+theorem C03_parser_store_refines_from_rep (o : Opts) (pol : Policy) (units : Str) (m : HMap) (w : Store.World) (s : Store.Store)
+    (last : Option SOp) (hr : ParserSimF.Rep o m w s last) (hok : OkCif o (Store.abs s.db)) (hrect : RectCif (Store.abs s.db))
+    (sops : List Store.Op) (hso : storeOpsFrom o m (storeTrace o pol (Store.abs s.db) units) = some sops) :
+    Store.inContractHist w sops = true ∧ (Store.run w sops).2.all (fun r => r.rc == some 0) = true ∧
+      Store.WOk (Store.run w sops).1 ∧
+      ∃ s', (Store.run w sops).1.cifs = [some s'] ∧ Store.abs s'.db = (parse o pol (Store.abs s.db) units).cif := by
+  rw [← Store.absS_tree] at hok hrect hso ⊢
+  exact ParserSimF.parse_store_sim_from o pol units m w s last hr ⟨hok, hrect⟩ sops hso
+
+set_option maxRecDepth 1000000 in
+/-- `C03_parser_store_refines` applies to a document with a save frame (kernel-evaluated: the trace has a translation) -/
+example : ∃ ops, storeOps C03.opts2 (storeTrace C03.opts2 acceptAll [] (a!"data_a _x 1 save_f _y 2 save_ _z 5")) = some ops ∧
+    (storeRun ops).2 = true ∧ ∃ s, (storeRun ops).1 = some s ∧
+      Store.abs s.db = (parse C03.opts2 acceptAll [] (a!"data_a _x 1 save_f _y 2 save_ _z 5")).cif := by
+  have h : (storeOps C03.opts2 (storeTrace C03.opts2 acceptAll [] (a!"data_a _x 1 save_f _y 2 save_ _z 5"))).isSome = true ∧
+      ((storeTrace C03.opts2 acceptAll [] (a!"data_a _x 1 save_f _y 2 save_ _z 5")).any fun | .mkFrame .. => true | _ => false) = true := by
+    decide +kernel
+  obtain ⟨ops, hops⟩ := Option.isSome_iff_exists.mp h.1
+  exact ⟨ops, hops, C03_parser_store_refines _ _ _ ops hops⟩
+
+set_option maxRecDepth 1000000 in
+/-- the hypotheses of the three theorems above hold of a real document — a scalar, a loop with two packets, the prune at the end of
+    the block (kernel-evaluated); and of one with an INVALID block code created leniently after the report was accepted -/
+example :
+    ParserSim.noFrames (storeTrace C03.opts2 acceptAll [] (a!"data_a _x 1 loop_ _b 1 2")) = true ∧
+    (storeOps C03.opts2 (storeTrace C03.opts2 acceptAll [] (a!"data_a _x 1 loop_ _b 1 2"))).isSome = true := by decide +kernel
+
+example : ∃ ops, storeOps C03.opts2 (storeTrace C03.opts2 acceptAll [] (a!"data_a _x 1 loop_ _b 1 2")) = some ops ∧
+    (storeRun ops).2 = true ∧ ∃ s, (storeRun ops).1 = some s ∧
+      Store.abs s.db = (parse C03.opts2 acceptAll [] (a!"data_a _x 1 loop_ _b 1 2")).cif := by
+  have h : ParserSim.noFrames (storeTrace C03.opts2 acceptAll [] (a!"data_a _x 1 loop_ _b 1 2")) = true ∧
+      (storeOps C03.opts2 (storeTrace C03.opts2 acceptAll [] (a!"data_a _x 1 loop_ _b 1 2"))).isSome = true := by decide +kernel
+  obtain ⟨ops, hops⟩ := Option.isSome_iff_exists.mp h.2
+  exact ⟨ops, hops, C03_parser_store_refines_covered_partial _ _ _ ops h.1 hops⟩
+
+set_option maxRecDepth 1000000 in
+/-- `C03_parser_store_refines_from_rep_partial` is not vacuous: the world the parse of `data_a _x 1` leaves represents a NON-EMPTY
+    target (one block with one scalar), so a second parse into the same CIF is covered -/
+example : ∃ m w s last, ParserSim.Rep C03.opts2 m w s last ∧ Store.abs s.db = (parse C03.opts2 acceptAll [] (a!"data_a _x 1")).cif ∧
+    (parse C03.opts2 acceptAll [] (a!"data_a _x 1")).cif ≠ [] := by
+  have h : ParserSim.noFrames (storeTrace C03.opts2 acceptAll [] (a!"data_a _x 1")) = true ∧
+      (parse C03.opts2 acceptAll [] (a!"data_a _x 1")).cif.length = 1 := by decide +kernel
+  obtain ⟨sops, m, s, last, _, hr, ht⟩ := ParserSim.parse_leaves_rep C03.opts2 acceptAll (a!"data_a _x 1") h.1
+  refine ⟨m, _, s, last, hr, by rw [← Store.absS_tree, ht], ?_⟩
+  intro e
+  rw [e] at h
+  cases h.2
 
 /-! ### instances of the FULL statement (and non-vacuity of the hypotheses above)
 
